@@ -250,7 +250,21 @@ def _check(args):
             for r in form["survey"]:
                 if a in r:
                     r[b] = r.pop(a)
-    st, r = xf.convert_form(forms.as_dict(form))
+    # multi-word headers written with any white space between the words (the audit reads the canonical key)
+    conv = form
+    if i % 3 == 0:
+        rx = rng_for(seed, PID, "header-ws", i)
+        import copy
+        conv = copy.deepcopy(form)
+        respell = {}
+        for key in ("read_only", "constraint_message", "required_message", "repeat_count"):
+            w = key.split("_")
+            respell[key] = rx.choice([key, " ".join(w), "\u00a0".join(w), "\t".join(w), "\n".join(w), "  ".join(w).title(), f" {' '.join(w)} ", "\u2003".join(w)])
+        for row in conv["survey"]:
+            items = [(respell.get(k, k), v) for k, v in row.items()]
+            row.clear()
+            row.update(items)
+    st, r = xf.convert_form(forms.as_dict(conv))
     if st != "ok":
         return {"i": i, "skip": st + ":" + str(r)[:50]}
     try:
@@ -258,7 +272,7 @@ def _check(args):
     except Exception as e:
         return {"i": i, "form": form, "what": f"oracle could not audit: {e!r}"}
     if probs:
-        return {"i": i, "form": form, "what": "; ".join(probs)[:800], "xform": r.xform[:2500]}
+        return {"i": i, "form": form, "converted_as": conv if conv is not form else None, "what": "; ".join(probs)[:800], "xform": r.xform[:2500]}
     return {"i": i, "ok": True, "key": hash(r.xform), "n": r.xform.count("<bind")}
 
 
@@ -280,7 +294,7 @@ def oracle(seed, tier, searching=False):
                 "(attribute per logic cell, yes/no normalisation, references abstracted), plus type-table bind type, preload attributes and "
                 "parameter-derived attributes",
         "accepted": len(oks), "skipped": skips,
-        "failures": [{"input": {"form": f["form"], "case": f["i"]}, "what": f["what"], "observed": f.get("xform"),
+        "failures": [{"input": {"form": f["form"], "converted_as": f.get("converted_as"), "case": f["i"]}, "what": f["what"], "observed": f.get("xform"),
                       "reproduce": "cd /verif && /venv/bin/python harness/check.py C05 --replay <this file>"} for f in fails[:8]],
         "samples": [{"oracle_case": r["i"], "binds": r["n"]} for r in oks[:3]],
     }
@@ -293,7 +307,7 @@ def replay_finding(slug):
 def replay(path: Path) -> int:
     payload = json.loads(Path(path).read_text())
     form = payload["input"]["form"]
-    st, r = xf.convert_form(forms.as_dict(form))
+    st, r = xf.convert_form(forms.as_dict(payload["input"].get("converted_as") or form))
     if st == "ok":
         probs = audit(form, r.xform)
         print(probs)
